@@ -29,10 +29,26 @@ EXIT_REASONS = ["Success", "KnownIssue", "SystemIssue", "SubmissionFailed", "Unk
                 "ResourceExhausted"]
 HOOK_REASONS = [r for r in EXIT_REASONS if r not in ("Killed", "Cancelled")]
 # global variables every generated workflow defines (typed options may refer to them)
-BASE_GVARS = {"gInt": "4", "GBool": "false", "gFlt": "2.5", "gStr": "text", "Gq-1": "batch", "gMem": "64Mi"}
-VAR_POOL = ["foo", "Bar", "zeta9", "OMEGA", "my_var", "T-1", "x_y", "Kappa", "lam", "PhiPsi", "uu7", "W"]
-ENV_NAMES = ["myenv", "Gnu", "e2"]
-ENV_VARS = ["PATH", "LD_LIBRARY_PATH", "OMP_NUM_THREADS", "myLower", "Mixed_Case", "DEFAULTS"]
+BASE_GVARS = {"gInt": "4", "GBool": "false", "gFlt": "2.5", "gStr": "text", "Gq-1": "batch", "gMem": "64Mi",
+              "g_U-2-x": "dashed"}
+# Names: the legacy format encodes names into section names (ENV-<NAME>, STAGE<i>, [component], [output]), file names
+# (stage<i>.instance.conf), comma lists (stages = stage0,stage1) and option keys (variables).  Every pool stresses the
+# characters that this syntax itself uses: '-' '_' '.' digits, mixed case, repeated / leading / trailing delimiters,
+# names that contain a reserved word of the format (ENV-, stage<i>, DEFAULT, environment).
+VAR_POOL = ["foo", "Bar", "zeta9", "OMEGA", "my_var", "T-1", "x_y", "Kappa", "lam", "PhiPsi", "uu7", "W",
+            "a.b", "V-a-b", "dotted.name-1", "UPPER_CASE", "camelCase9", "9start", "-lead", "x--y", "_u", "tail-", "stage0"]
+ENV_NAMES = ["myenv", "Gnu", "e2"]          # names of earlier versions (corpus / replay files refer to them)
+ENV_NAME_POOL = ENV_NAMES + ["hpc-python", "my-venv-gpu", "py_3.9", "A.b-c_d", "env-x", "x--y", "ENV-inner", "env", "9",
+                             "e.n.v", "UPPER-CASE", "a-1-b_2.c", "-lead", "tail-", "environment", "stage0", "E", "env_",
+                             "-", "a-", "Default-env"]
+ENV_VARS = ["PATH", "LD_LIBRARY_PATH", "OMP_NUM_THREADS", "myLower", "Mixed_Case", "DEFAULTS", "MY-VAR", "A.B",
+            "lower_case9", "ENV-X"]
+COMP_NAME_POOL = ["Comp", "run", "Gen_x", "a-b", "c.d", "A-b-c", "x_1-y.z", "UPPER", "9lives", "-lead", ".dot", "tail-",
+                  "n--m", "stage1", "a.b.c", "ENV-c", "Default-c", "c_", "stage0.x", "metadata"]
+OUTPUT_NAME_POOL = ["Result", "energies", "Out_2", "out-put-1", "a.b", "UPPER-x", "9", "stage0", "ENV-o", "o--p_.q"]
+PLATFORM_POOL = ["p1", "hpc-lsf", "my_plat.2", "P-3"]
+APPDEP_POOL = ["my-app_1.application", "A.b-c.application", "x.application"]
+VENV_POOL = ["venv-3.9", "my_venv", "V.e-n_v"]
 
 
 def _imports():
@@ -201,12 +217,13 @@ def build_doc(spec):
     blueprint = {"default": {"global": bp(spec.get("bp_global", [])),
                              "stages": {int(k): bp(v) for k, v in spec.get("bp_stage", {}).items()}}}
     envs = {"default": {k: dict(v) for k, v in spec.get("envs", {}).items()}}
-    if spec.get("platform") == PLAT:
-        variables[PLAT] = {"global": dict(spec.get("pgvars", {})),
+    plat = spec.get("platform", "default")
+    if plat != "default":
+        variables[plat] = {"global": dict(spec.get("pgvars", {})),
                            "stages": {int(k): dict(v) for k, v in spec.get("psvars", {}).items()}}
-        blueprint[PLAT] = {"global": bp(spec.get("pbp_global", []))}
-        envs[PLAT] = {k: dict(v) for k, v in spec.get("penvs", {}).items()}
-        doc["platforms"] = ["default", PLAT]
+        blueprint[plat] = {"global": bp(spec.get("pbp_global", []))}
+        envs[plat] = {k: dict(v) for k, v in spec.get("penvs", {}).items()}
+        doc["platforms"] = ["default", plat]
     doc["variables"] = variables
     doc["blueprint"] = blueprint
     doc["environments"] = envs
@@ -545,6 +562,177 @@ def probe_parse_side(ctx, t):
 
 
 # ----------------------------------------------------------------------------------------
+# names packed into the syntax of the files: ENV-<NAME> / STAGE<i> sections, `stages = stage0,stage1`, stage<i>.instance.conf
+# ----------------------------------------------------------------------------------------
+
+NAME_DELIMS = ["-", "_", ".", "7", "ENV-", "env-", "stage", "0"]
+
+
+def probe_env_names(rng, quick):
+    names = list(ENV_NAME_POOL)
+    for d in NAME_DELIMS:
+        names += ["a%sb" % d, "%sa" % d, "a%s" % d, "a%s%sb" % (d, d), "A%sb%sC" % (d, d), d]
+    alpha = "abcxyzABCXYZ0189-_.-"
+    for _ in range(40 if quick else 400):
+        names.append("".join(rng.choice(alpha) for _ in range(rng.randint(1, 12))))
+    out, seen = [], set()
+    for n in names:
+        if n and n.upper() != "SANDBOX" and n not in seen:     # SANDBOX is the reserved section of the format
+            seen.add(n)
+            out.append(n)
+    return out
+
+
+def real_env_name(name, workdir):
+    """real writer and reader on an instance description that has the one environment `name`:
+    (section names written, environment names loaded)"""
+    F, D = _imports()
+    flowir = {F.FlowIR.FieldEnvironments: {"default": {name: {"K": "v"}}},
+              F.FlowIR.FieldApplicationDependencies: {}, F.FlowIR.FieldVirtualEnvironments: {}}
+    path = os.path.join(workdir, "probe.experiment.conf")
+    D.Dosini._dump_experiment_root_conf(flowir, path, update_existing=True)
+    sections = D.environment_to_dict(path)
+    back = D.Dosini.parse_environment_dicts({}, {"default": sections}, is_instance=True)
+    return sorted(sections), sorted(back[F.FlowIR.FieldEnvironments]["default"])
+
+
+def real_status_stage(i, workdir):
+    F, D = _imports()
+    D.Dosini._dump_status({F.FlowIR.FieldStatusReport: {i: {"stage-weight": 1.0}}}, workdir)
+    d = D.dosini_to_dict(os.path.join(workdir, "status.conf"), [], consider_meta_as_section=True)
+    sections = sorted(k for k in d if k not in ("DEFAULT", "META"))
+    back = D.Dosini.parse_status({}, d)
+    return sections, sorted(back[F.FlowIR.FieldStatusReport])
+
+
+def real_output_stages(l, workdir):
+    F, D = _imports()
+    D.Dosini._dump_output({F.FlowIR.FieldOutput: {"o": {"data-in": "stage0.a/x:ref", "stages": list(l)}}}, workdir)
+    d = D.dosini_to_dict(os.path.join(workdir, "output.conf"), [], consider_meta_as_section=True)
+    back = D.Dosini.parse_output({}, d)
+    return d["o"].get("stages"), list(back[F.FlowIR.FieldOutput]["o"]["stages"])
+
+
+def real_stage_files(n, workdir):
+    F, D = _imports()
+    d = tempfile.mkdtemp(prefix="files-", dir=workdir)
+    os.makedirs(os.path.join(d, "stages.d"))
+    comps = [{"name": "c", "stage": i, "command": {"executable": "ls"}} for i in range(n)]
+    D.Dosini._dump_components({F.FlowIR.FieldComponents: comps, F.FlowIR.FieldVariables: {}}, d, True, True)
+    files = sorted(os.listdir(os.path.join(d, "stages.d")))
+    back = D.Dosini._discover_stages(d, True)
+    return files, {int(k): os.path.basename(v) for k, v in back.items()}
+
+
+def _guard(fn, *a):
+    try:
+        return fn(*a), None
+    except Exception as exc:  # noqa
+        return None, "%s: %s" % (type(exc).__name__, str(exc)[:200])
+
+
+def probe_names(ctx, workdir, only=None):
+    """every encode/decode pair for names, real writer -> real reader (oracle) and against Model/IniNames (comparison)"""
+    rng, quick = ctx.rng, ctx.tier == "quick"
+    items = []
+    if only is None:
+        items += [{"probe": "environment-name", "name": n} for n in probe_env_names(rng, quick)]
+        idx = list(range(0, 13)) + [19, 20, 99, 100, 101, 123, 1000, 4096]
+        items += [{"probe": "status-stage", "i": i} for i in idx]
+        lists = [[], [0], [10], [2, 10], [10, 2], list(range(13)), [101, 7, 1000], [9, 10, 11], [0, 0]]
+        lists += [sorted(rng.sample(range(130), rng.randint(1, 6))) for _ in range(6)]
+        items += [{"probe": "output-stages", "l": l} for l in lists]
+        items += [{"probe": "stage-files", "n": n} for n in ([1, 12] if quick else [1, 10, 11, 12, 101, 112])]
+    else:
+        items = [only]
+    reqs = []
+    for it in items:
+        if it["probe"] == "environment-name":
+            reqs.append({"op": "env_name", "name": it["name"]})
+        elif it["probe"] == "status-stage":
+            reqs.append({"op": "stage_names", "i": it["i"]})
+        elif it["probe"] == "output-stages":
+            reqs.append({"op": "output_stages", "l": it["l"]})
+        else:
+            reqs.append({"op": "stage_names", "i": it["n"] - 1})
+    mouts = ctx.model(reqs)
+    for k, it in enumerate(items):
+        m = None if mouts is None else mouts[k]
+        kind = it["probe"]
+        ctx.case(it, nontrivial=True, tags=["probe:" + kind])
+        if kind == "environment-name":
+            n = it["name"]
+            for ch in ("-", "_", "."):
+                if ch in n:
+                    ctx.tag("environment-name-contains:" + ch)
+            res, err = _guard(real_env_name, n, workdir)
+            if err:
+                ctx.fail("environment-name-write-or-load-raises", it, {"error": err})
+                continue
+            sections, back = res
+            if [b.lower() for b in back] != [n.lower()]:
+                ctx.fail("environment-name-not-restored", it, {"written": n, "sections": sections, "loaded": back})
+            if m is not None:
+                ctx.compare("section of an environment / name read back == IniNames.envSection / envName", it,
+                            {"sections": [m["section"]], "back": [m["back"]]}, {"sections": sections, "back": back})
+        elif kind == "status-stage":
+            res, err = _guard(real_status_stage, it["i"], workdir)
+            if err:
+                ctx.fail("status-stage-write-or-load-raises", it, {"error": err})
+                continue
+            sections, back = res
+            if back != [it["i"]]:
+                ctx.fail("status-stage-index-not-restored", it, {"sections": sections, "loaded": back})
+            if m is not None:
+                ctx.compare("status section of a stage / index read back == IniNames.stageSection / stageIndex", it,
+                            {"sections": [m["section"]], "back": [m["section_back"]]}, {"sections": sections, "back": back})
+        elif kind == "output-stages":
+            res, err = _guard(real_output_stages, it["l"], workdir)
+            if err:
+                ctx.fail("output-stages-write-or-load-raises", it, {"error": err})
+                continue
+            text, back = res
+            if back != it["l"]:
+                ctx.fail("output-stages-not-restored", it, {"text": text, "loaded": back})
+            if m is not None:
+                ctx.compare("stages text of an output / list read back == IniNames.outputStages / parseOutputStages", it,
+                            {"text": m["text"], "back": m["back"]}, {"text": text or "", "back": back})
+        else:
+            res, err = _guard(real_stage_files, it["n"], workdir)
+            if err:
+                ctx.fail("stage-files-write-or-discover-raises", it, {"error": err})
+                continue
+            files, back = res
+            if sorted(back) != list(range(it["n"])) or len(set(back.values())) != it["n"]:
+                ctx.fail("stage-files-not-rediscovered", it, {"files": files[:20], "discovered": sorted(back)[:20]})
+            if m is not None:   # the file of the last stage
+                last = it["n"] - 1
+                ctx.compare("file of the last stage / index read back == IniNames.stageFile / stageFileIndex", it,
+                            {"file": m["file"], "present": True, "back": m["file_back"]},
+                            {"file": back.get(last), "present": m["file"] in files, "back": last if last in back else None})
+    if only is None:
+        # reader alone on section spellings the writer does not produce (letter case, virtual sections, no prefix)
+        texts = ["env-Mixed", "Env-a-b", "ENV-", "ENV-A", "SANDBOX", "Sandbox", "ENVIRONMENT", "environment", "ENVX", "other",
+                 "EN", "ENV_X", "ENV-ENV-X"]
+        F, D = _imports()
+        mo = ctx.model([{"op": "env_section", "section": t} for t in texts])
+        for t, m in zip(texts, mo or []):
+            try:
+                back = D.Dosini.parse_environment_dicts({}, {"default": {t: {"K": "v"}}}, is_instance=True)
+                impl = sorted(back[F.FlowIR.FieldEnvironments]["default"])
+                if t == "SANDBOX":
+                    impl = ["<sandbox-consumed>"] if not impl else impl
+            except Exception as exc:  # noqa
+                impl = None
+            mb = m["back"]
+            if t == "SANDBOX" and mb is not None:
+                mb = "<sandbox-consumed>"       # parse_environment_dicts then moves SANDBOX into other fields
+            ctx.compare("parse_environment_dicts on one section == IniNames.envName", {"section": t},
+                        None if mb is None else [mb], impl)
+        ctx.tag("probe:environment-section-spellings", len(texts))
+
+
+# ----------------------------------------------------------------------------------------
 # generators
 # ----------------------------------------------------------------------------------------
 
@@ -555,9 +743,42 @@ def gen_vars(rng, n, pool=VAR_POOL):
     return out
 
 
-def gen_envs(rng):
+def pick_env_names(rng):
+    """three environment names that differ by more than case (the format stores them upper-cased)"""
+    names = []
+    while len(names) < 3:
+        n = rng.choice(ENV_NAME_POOL)
+        if n.lower() not in [m.lower() for m in names]:
+            names.append(n)
+    return names
+
+
+def use_env_names(spec, names, rng):
+    """command.environment options refer to environments the workflow defines"""
+    def fix(pairs):
+        for pv in pairs:
+            if pv[0] == ["command", "environment"]:
+                pv[1] = rng.choice(names)
+    for c in spec["comps"]:
+        fix(c["opts"])
+    for key in ("bp_global", "pbp_global"):
+        fix(spec.get(key, []))
+    for v in spec.get("bp_stage", {}).values():
+        fix(v)
+
+
+def unique_name(rng, pool, used):
+    base = rng.choice(pool)
+    name = base if base not in used else "%s%d" % (base, len(used))
+    while name in used:
+        name += "x"
+    used.add(name)
+    return name
+
+
+def gen_envs(rng, names=None):
     envs = {}
-    for name in ENV_NAMES:
+    for name in (names or ENV_NAMES):
         env = {}
         for k in rng.sample(ENV_VARS, rng.randint(1, 4)):
             env[k] = rng.choice(["/opt/%s/bin:$PATH" % g_word(rng), "%(gStr)s/lib", str(rng.randint(1, 64)), g_text(rng),
@@ -594,27 +815,29 @@ def ensure_valid(spec):
     return spec
 
 
-def gen_spec(rng, all_options=False, backend=None):
-    nstages = rng.randint(1, 3)
+def gen_spec(rng, all_options=False, backend=None, nstages=None):
+    many = nstages is not None
+    nstages = nstages or rng.randint(1, 3)
     comps, earlier = [], []
-    used_bp = {}
-    spec = {"platform": rng.choice(["default", "default", PLAT]), "mode": rng.choice(["conf", "conf", "test"])}
+    used_names = set()
+    env_names = pick_env_names(rng)
+    spec = {"platform": rng.choice(["default", "default", rng.choice(PLATFORM_POOL)]), "mode": rng.choice(["conf", "conf", "test"])}
     if rng.random() < 0.5:
         k = rng.randint(1, 6)
         spec["bp_global"] = [[list(p), g(rng)] for p, g in rng.sample([e for e in CATALOGUE if e[0] in BLUEPRINTABLE], k)]
     if rng.random() < 0.4:
         spec["bp_stage"] = {str(rng.randrange(nstages)): [[list(p), g(rng)] for p, g in
                                                          rng.sample([e for e in CATALOGUE if e[0] in BLUEPRINTABLE], 3)]}
-    if spec["platform"] == PLAT:
+    if spec["platform"] != "default":
         spec["pbp_global"] = [[list(p), g(rng)] for p, g in rng.sample([e for e in CATALOGUE if e[0] in BLUEPRINTABLE], 3)]
         spec["pgvars"] = gen_vars(rng, 2)
         if rng.random() < 0.5:
             spec["pgvars"]["gInt"] = "6"
         spec["psvars"] = {str(rng.randrange(nstages)): gen_vars(rng, 2)}
-        spec["penvs"] = {rng.choice(ENV_NAMES): {"PATH": "/plat/bin:$PATH", "PLAT_ONLY": g_word(rng)}}
+        spec["penvs"] = {rng.choice(env_names): {"PATH": "/plat/bin:$PATH", "PLAT_ONLY": g_word(rng)}}
     for stage in range(nstages):
-        for i in range(rng.randint(1, 3)):
-            name = "%s%d" % (rng.choice(["Comp", "run", "Gen_x", "a-b", "c.d"]), len(comps))
+        for i in range(1 if many and stage not in (0, nstages - 1) else rng.randint(1, 3)):
+            name = unique_name(rng, COMP_NAME_POOL, used_names)
             if all_options and stage == 0 and i == 0:
                 chosen = list(CATALOGUE)
             else:
@@ -631,9 +854,10 @@ def gen_spec(rng, all_options=False, backend=None):
             earlier.append((stage, name))
     spec["comps"] = comps
     ensure_valid(spec)
+    use_env_names(spec, env_names, rng)
     spec["gvars"] = gen_vars(rng, rng.randint(0, 4))
     spec["svars"] = {str(s): gen_vars(rng, rng.randint(1, 3)) for s in range(nstages) if rng.random() < 0.6}
-    spec["envs"] = gen_envs(rng)
+    spec["envs"] = gen_envs(rng, env_names)
     if rng.random() < 0.8:
         ws = [100 // nstages] * nstages
         ws[-1] += 100 - sum(ws)
@@ -649,7 +873,7 @@ def gen_spec(rng, all_options=False, backend=None):
         spec["status"] = st
     if rng.random() < 0.7:
         out = {}
-        for oname in rng.sample(["Result", "energies", "Out_2"], rng.randint(1, 2)):
+        for oname in rng.sample(OUTPUT_NAME_POOL, rng.randint(1, 2)):
             s, n = rng.choice(earlier)
             sec = {"data-in": "stage%d.%s/out.csv:%s" % (s, n, rng.choice(["ref", "copy"]))}
             if rng.random() < 0.7:
@@ -661,9 +885,9 @@ def gen_spec(rng, all_options=False, backend=None):
             out[oname] = sec
         spec["output"] = out
     if rng.random() < 0.4:
-        spec["appdeps"] = ["%s.application" % g_word(rng) for _ in range(rng.randint(1, 2))]
+        spec["appdeps"] = [rng.choice(APPDEP_POOL + ["%s.application" % g_word(rng)]) for _ in range(rng.randint(1, 2))]
     if rng.random() < 0.3:
-        spec["venvs"] = [g_word(rng)]
+        spec["venvs"] = [rng.choice(VENV_POOL + [g_word(rng)])]
     return spec
 
 
@@ -688,8 +912,11 @@ def gen_replication_spec(rng):
     ]
     for c in comps:     # FlowIRConcrete.replicate() converts types before variables are resolved: no bare references here
         c["opts"] = [[p, v] for p, v in c["opts"] if not (isinstance(v, str) and v.startswith("%(") and v.endswith(")s"))]
-    return ensure_valid({"platform": "default", "mode": rng.choice(["conf", "test"]), "comps": comps, "replicate": True,
-                         "gvars": gen_vars(rng, 2), "svars": {"1": gen_vars(rng, 1)}, "envs": gen_envs(rng)})
+    names = pick_env_names(rng)
+    spec = ensure_valid({"platform": "default", "mode": rng.choice(["conf", "test"]), "comps": comps, "replicate": True,
+                         "gvars": gen_vars(rng, 2), "svars": {"1": gen_vars(rng, 1)}, "envs": gen_envs(rng, names)})
+    use_env_names(spec, names, rng)
+    return spec
 
 
 CORPUS = [
@@ -773,6 +1000,12 @@ def make_shrinker(workdir):
                 if fails_with(what, dict(spec, comps=cs)):
                     c2 = cand
             spec["comps"][i] = c2
+        if len(spec.get("envs", {})) > 1:       # one environment is enough when the component options allow it
+            for name in sorted(spec["envs"]):
+                cand = dict(spec, envs={name: spec["envs"][name]})
+                if fails_with(what, cand):
+                    spec = cand
+                    break
         return spec if fails_with(what, spec) else None
     return shrink
 
@@ -786,6 +1019,14 @@ def run(ctx):
                 "status and output sections; replication chains) -> FlowIRConcrete.instance() -> Dosini.dump(is_instance) "
                 "-> Dosini.load_from_directory(is_instance) -> per-component resolved configuration, environments, status, "
                 "output compared. The first cases of every run set EVERY catalogue option at once (one per backend). "
+                "Names of environments, components, variables, environment variables, outputs, platforms, application "
+                "dependencies and virtual environments are drawn from pools that stress the delimiters of the section/"
+                "key/file-name syntax ('-' '_' '.' digits, mixed case, leading/trailing/repeated delimiters, names "
+                "containing ENV-, stage<i>, DEFAULT, environment); workflows with 11-12 stages (10-101 thorough) exercise "
+                "multi-digit STAGE<i> sections, stage<i>.instance.conf files and stages lists. Name probes: every "
+                "encode/decode pair for names (environment section, status stage section, stages list of an output, "
+                "stage files) is driven real writer -> real reader on ~110 systematic + 40 random names (400 thorough) "
+                "and stage indices 0-12, 19, 20, 99-101, 123, 1000, 4096 and compared with Model/IniNames. "
                 "non-trivial = at least one explicitly set option and dump+reload completed; distinct by canonical JSON of "
                 "the case. Every component of every instance additionally goes through the real writer/reader and the Lean "
                 "model's dumpSection/parseSection; the reader is probed with %d texts for every known key."
@@ -793,7 +1034,9 @@ def run(ctx):
     ctx.assumptions = [
         "safe-string class (configparser trusted on it; found by experiment): printable ASCII text without line breaks, "
         "without leading/trailing white space, '%' only as %(name)s; keys/variable names non-empty, without '=' ':' and not "
-        "starting with '#' ';' '['; section/component names without ']' and different from DEFAULT/META",
+        "starting with '#' ';' '['; section/component names without ']' and different from DEFAULT/META in any letter case "
+        "(the reader folds such sections into the defaults); environment names differ by more than letter case and are "
+        "not SANDBOX (the format stores them upper-cased and reserves SANDBOX)",
         "variable values are compared as text (the legacy format stores text; variables are only interpolated into text); "
         "numbers are compared by value (33 == 33.0); an absent key and an empty list/None are the same in status/output sections",
         "options without a legacy key are outside 'expressible in the legacy format' and never generated: "
@@ -820,6 +1063,7 @@ def run(ctx):
     cwd = os.getcwd()
     try:
         probe_parse_side(ctx, t)
+        probe_names(ctx, workdir)
         for spec in CORPUS:
             run_case(ctx, copy.deepcopy(spec), workdir, tags=["corpus"])
         corpus_dir = os.path.join(os.path.dirname(os.path.dirname(os.path.abspath(__file__))), "corpus", "C19")
@@ -832,6 +1076,9 @@ def run(ctx):
                 run_case(ctx, gen_spec(rng, all_options=True, backend=backend), workdir, tags=["all-options", "backend:" + backend])
         for _ in range(120 if quick else 1500):
             run_case(ctx, gen_spec(rng), workdir, tags=["random"])
+        # stage indices with more than one digit (STAGE10, stage11.instance.conf, stages = stage2,stage10)
+        for n in ([11, 12] if quick else [10, 11, 12, 13, 21, 101]):
+            run_case(ctx, gen_spec(rng, nstages=n), workdir, tags=["many-stages"])
         for _ in range(15 if quick else 150):
             run_case(ctx, gen_replication_spec(rng), workdir, tags=["replication"])
         covered = {k[4:] for k in ctx.tags if k.startswith("opt:")}
@@ -857,7 +1104,9 @@ def replay(ctx, doc):
     try:
         if isinstance(case, dict) and "spec" in case:
             case = case["spec"]
-        if isinstance(case, dict) and "comps" in case:
+        if isinstance(case, dict) and "probe" in case:
+            probe_names(ctx, workdir, only=case)
+        elif isinstance(case, dict) and "comps" in case:
             run_case(ctx, case, workdir, tags=["replay"])
         elif isinstance(case, dict) and "key" in case:
             probe_parse_side(ctx, gen_c19.tables())
